@@ -112,9 +112,9 @@ var Catalogue = []TypeCat{
 			l := uint64(1 + r.IntN(6))
 			return []proto.Req{
 				post(base+"/raw/0_1_2/16_16_16/"+off+"?mutate=true", labelBox(r, []uint64{l, l + 1})),
-				post(base+"/merge", jsonU64s([]uint64{1, 2})),
-				post(base+"/cleave/1", jsonU64s([]uint64{2})),
-				post(base+"/renumber", jsonU64s([]uint64{uint64(50 + r.IntN(50)), 3})),
+				post(base+"/merge", jsonU64s([]uint64{uint64(1 + r.IntN(8)), uint64(1 + r.IntN(8))})),
+				post(fmt.Sprintf("%s/cleave/%d", base, 1+r.IntN(8)), jsonU64s([]uint64{uint64(1 + r.IntN(8))})),
+				post(base+"/renumber", jsonU64s([]uint64{uint64(50 + r.IntN(50)), uint64(1 + r.IntN(8))})),
 				post(base+"/nextlabel/2", nil),
 				post(fmt.Sprintf("%s/maxlabel/%d", base, 100+r.IntN(100)), nil),
 				post(base+"/split-supervoxel/4", EncodeRLEs([]Run{{0, 0, 0, 2}})),
